@@ -143,7 +143,9 @@ fn gen_project(rng: &mut Rng) -> Project {
     let names: Vec<String> = match codepage {
         1251 => vec!["Module1", "Модуль2", "ЭтаКнига", "Лист1", "Sheet2", "Класс1", "M7"],
         932 => vec!["Module1", "モジュール2", "ThisWorkbook", "Sheet1", "クラス1", "M6", "M7"],
-        _ => vec!["Module1", "Modül2", "ThisWorkbook", "Sheet1", "Class1", "Módulo 6", "M7"],
+        // "Project" / "workbook": module streams whose names differ only in case from the root
+        // PROJECT stream and from the Workbook stream of an xls container
+        _ => vec!["Module1", "Modül2", "Project", "Sheet1", "workbook", "Módulo 6", "M7"],
     }
     .into_iter()
     .map(String::from)
